@@ -7,8 +7,9 @@ MANIFEST = {
     "level": "Bounded model checking by symbolic execution of the real semi_singleton_metaclass (default and custom "
              "hashfunc), add_mapping, drop_semi_singleton_mapping, check_semi_singleton_entry_exists, "
              "get_all_semi_singleton_instances and clear_semi_singleton: histories of depth 2 (quick) / 3 (thorough), each followed by a probe construction of every class, over "
-             "six classes (own metaclass each; two classes sharing one metaclass object; a subclass of a semi-singleton "
-             "class; a class with a custom key function). Constructor arguments are UNBOUNDED symbolic integers "
+             "eight classes (own metaclass each; two classes sharing one metaclass object; a subclass of a semi-singleton "
+             "class; a class with a custom key function; a class whose constructor rejects negative arguments; a class "
+             "with falsy instances). Constructor arguments are UNBOUNDED symbolic integers "
              "(positional, and up to two keywords in either order); hash(int) follows CPython's exact rule, so distinct "
              "arguments with equal hashes are inside the search space. After every step the real behaviour must equal a "
              "per-class reference map from argument keys to instances; a final probe of every class checks isolation.",
@@ -19,7 +20,7 @@ MANIFEST = {
     "design_ref": "DESIGN.md 5 (C17)",
 }
 
-BOUNDS = {"quick": {"classes": 6, "depth": "2 + probe of every class"}, "thorough": {"classes": 6, "depth": "3 + probe of every class"}}
+BOUNDS = {"quick": {"classes": 8, "depth": "2 + probe of every class"}, "thorough": {"classes": 8, "depth": "3 + probe of every class"}}
 TIME_BUDGET = {"quick": 400, "thorough": 1200}
 STUBS = ["hash(int) -> exact CPython rule (mod 2^61-1, -1 -> -2)", "hash(tuple), hash(str) -> injective",
          "json.dumps(kwargs, sort_keys=True) -> injective canonical rendering"]
@@ -31,7 +32,7 @@ EXPLANATION = "bounded histories over several class arrangements with unbounded 
 
 def configs(tier):
     d = 2 if tier == "quick" else 3
-    return [{"depth": d, "group": g} for g in ("own", "shared", "sub", "custom")] + [{"depth": 0, "group": "own", "native_gc": True}]
+    return [{"depth": d, "group": g} for g in ("own", "shared", "sub", "custom", "picky")] + [{"depth": 0, "group": "own", "native_gc": True}]
 
 
 def required_markers(tier):
@@ -41,7 +42,7 @@ def required_markers(tier):
 PROG = '''
 from edgegraph.structure import singleton
 
-COUNT = {"C": 0, "D": 0, "E": 0, "F": 0, "Sub": 0, "G": 0}
+COUNT = {"C": 0, "D": 0, "E": 0, "F": 0, "Sub": 0, "G": 0, "V": 0, "Z": 0}
 
 class C(metaclass=singleton.semi_singleton_metaclass()):
     def __init__(self, *args, **kwargs):
@@ -73,7 +74,27 @@ class G(metaclass=singleton.semi_singleton_metaclass(lambda a, k: a[0])):
         COUNT[type(self).__name__] += 1
         self.args = args
 
-ALL = {"C": C, "D": D, "E": E, "F": F, "Sub": Sub, "G": G}
+class V(metaclass=singleton.semi_singleton_metaclass()):
+    """a validating constructor: a negative first argument is rejected"""
+    def __init__(self, *args, **kwargs):
+        if args[0] < 0:
+            raise ValueError("negative")
+        COUNT[type(self).__name__] += 1
+        self.args = args
+
+class Z(metaclass=singleton.semi_singleton_metaclass()):
+    """instances are falsy (an empty container-like object)"""
+    def __init__(self, *args, **kwargs):
+        COUNT[type(self).__name__] += 1
+        self.args = args
+
+    def __bool__(self):
+        return False
+
+    def __len__(self):
+        return 0
+
+ALL = {"C": C, "D": D, "E": E, "F": F, "Sub": Sub, "G": G, "V": V, "Z": Z}
 CLASSES = [ALL[n] for n in names]
 N = len(names)
 keys = [[] for n in names]     # per class: list of live keys
@@ -108,13 +129,27 @@ def call(fn, first, args, kw, kwfirst):
 def construct(ci, args, kw, kwfirst):
     global ok
     cls = CLASSES[ci]
-    if len(kw) == 2 and kwfirst:
-        ks = list(kw)
-        r = cls(*args, **{ks[1]: kw[ks[1]], ks[0]: kw[ks[0]]})
-    else:
-        r = cls(*args, **kw)
     key = key_of(ci, args, kw)
     i = find(ci, key)
+    try:
+        if len(kw) == 2 and kwfirst:
+            ks = list(kw)
+            r = cls(*args, **{ks[1]: kw[ks[1]], ks[0]: kw[ks[0]]})
+        else:
+            r = cls(*args, **kw)
+    except ValueError:
+        # only the validating class rejects, only a new key with a negative first argument; a rejected
+        # construction creates no mapping
+        ok = ok and (names[ci] == "V") and (args[0] < 0) and (i < 0)
+        ok = ok and (call(singleton.check_semi_singleton_entry_exists, cls, args, kw, kwfirst) is None)
+        got = list(singleton.get_all_semi_singleton_instances(cls))
+        for g in got:
+            ok = ok and (g in vals[ci])
+        for v in vals[ci]:
+            ok = ok and (v in got)
+        return None
+    if names[ci] == "V" and i < 0:
+        ok = ok and (args[0] >= 0)
     if i < 0:
         keys[ci].append(key)
         vals[ci].append(r)
@@ -199,7 +234,7 @@ except Exception as exc:
 no_exc = raised is None
 '''
 
-GROUPS = {"own": ["C", "D"], "shared": ["E", "F"], "sub": ["C", "Sub"], "custom": ["G", "C"]}
+GROUPS = {"own": ["C", "D"], "shared": ["E", "F"], "sub": ["C", "Sub"], "custom": ["G", "C"], "picky": ["V", "Z"]}
 
 
 def native_unreferenced(B):
